@@ -900,6 +900,9 @@ def ce1(ctx, R):
     for r in cfg.where(lambda n: n.kind == "return" and isinstance(n.ast.value, ast.Name) and n.ast.value.id != dd.params[0]):
         tests = _controlling_tests(cfg, r)
         ok = any(isinstance(t.ast, ast.Call) and call_name(t.ast) in ("_array_equal", "np.array_equal", "numpy.array_equal") for t in tests)
+        # the very same object is equal to itself: `if candidate is xs: return candidate`
+        ok = ok or any(isinstance(t.ast, ast.Compare) and len(t.ast.ops) == 1 and isinstance(t.ast.ops[0], ast.Is) and
+                       {getattr(t.ast.left, "id", None), getattr(t.ast.comparators[0], "id", None)} == {r.ast.value.id, dd.params[0]} for t in tests)
         R.check(ok, "reader._deduplicate_array::candidate returned only when equal", dd.where(r.ast),
                 "an existing array replaces the new one only under an element-wise equality test",
                 "an existing array is returned without an element-wise equality test")
